@@ -662,8 +662,9 @@ class HyperElasticState:
 
         The direction must already be normalized: fiber/sheet directions are
         normalized once when the material is built (see :class:`HolzapfelOgden`),
-        so there is no per-call ``T/||T||`` here — only the component split, with
-        the entries above ``dim`` zeroed.
+        so there is no per-call ``T/||T||`` here — only the component split. In 2D the
+        out-of-plane component is kept: the body is in plane strain (czz = 1), a fiber
+        leaving the plane keeps its unit length in the reference configuration.
         """
         _params._CheckIsVector(T)
         if not isinstance(T, FeArray):
@@ -675,8 +676,6 @@ class HyperElasticState:
         dim = self._GetDims()[2]
         if dim == 1:
             Ty = Tz = 0
-        elif dim == 2:
-            Tz = 0
 
         return Tx, Ty, Tz
 
